@@ -37,4 +37,27 @@ def locatePointInPolygon (p : Pt) : List (List Pt) → Loc
       | .interior => holesLoop p holes
       | l => l
 
+
+/-!
+## `IndexedPointInAreaLocator::locate`
+
+All segments of all (closed) rings are stored in an interval index keyed by their y-range; `locate` feeds every
+segment whose y-range contains `p.y` to one `RayCrossingCounter` — in the index's traversal order, with no early
+exit — and returns its location.
+-/
+
+/-- the segments `IntervalIndexedGeometry::init` inserts: every ring, every consecutive vertex pair -/
+def allSegs (rings : List (List Pt)) : List (Pt × Pt) := rings.flatMap edges
+
+/-- the interval query `[p.y, p.y]` against the stored interval `[min y, max y]` -/
+def inYRange (p : Pt) (e : Pt × Pt) : Bool :=
+  decide (min e.1.y e.2.y ≤ p.y) && decide (p.y ≤ max e.1.y e.2.y)
+
+/-- the visitor: one counter fed with the visited segments -/
+def visit (p : Pt) (es : List (Pt × Pt)) : RCC := es.foldl (fun st e => countSegment p st e.1 e.2) RCC.init
+
+/-- `IndexedPointInAreaLocator::locate(p)` with the segments visited in insertion order -/
+def locateIndexed (p : Pt) (rings : List (List Pt)) : Loc :=
+  getLocation (visit p ((allSegs rings).filter (inYRange p)))
+
 end GeosModel.PolyLocate
